@@ -1246,7 +1246,10 @@ class Controller:
                 )
             )
         else:
-            connection = None
+            # Forget the entry made for the connection that was being set up
+            connection = self.classic_connections.get(peer_address)
+            if connection and connection.handle == 0:
+                del self.classic_connections[peer_address]
             self.send_hci_packet(
                 hci.HCI_Connection_Complete_Event(
                     status=status,
